@@ -177,6 +177,7 @@ type lspGen struct {
 	verMode int
 	texts   []string
 	cur     map[string]string // the text last sent in full for a URI ("" when unknown)
+	uris    []string          // nil: not chosen yet; empty: the default d0..d2
 }
 
 func jstr(s string) string { b, _ := json.Marshal(s); return string(b) }
@@ -208,6 +209,25 @@ func (g *lspGen) pos() (int, int) {
 
 func (g *lspGen) step() lspStep {
 	uri := fmt.Sprintf("file:///d%d.sql", g.r.Intn(3))
+	if g.uris == nil {
+		g.uris = []string{}
+		if g.r.Chance(35) {
+			// documents whose names look alike: letter case, percent-encoding, dot segments, fragments, drive letters,
+			// schemes — each URI is a document of its own, identified by its exact spelling
+			fams := [][]string{
+				{"file:///srv/sql/Report.sql", "file:///srv/sql/report.sql", "file:///srv/sql/REPORT.SQL"},
+				{"file:///srv/sql/report.sql", "file:///srv/sql/report%2Esql", "file:///srv/sql/r%65port.sql", "file:///srv/sql/./report.sql"},
+				{"file:///C:/x/a.sql", "file:///c%3A/x/a.sql", "file:///c:/x/a.sql"},
+				{"file:///a.sql", "file:///a.sql#L1", "file:///a.sql?v=1", "FILE:///a.sql"},
+				{"untitled:Untitled-1", "untitled:untitled-1", "inmemory://model/1", "inmemory://model/1/"},
+				{"file:///tmp/a%20b.sql", "file:///tmp/a b.sql", "file:///tmp/a+b.sql"},
+			}
+			g.uris = fams[g.r.Intn(len(fams))]
+		}
+	}
+	if len(g.uris) > 0 {
+		uri = g.uris[g.r.Intn(len(g.uris))]
+	}
 	if g.verMode == 0 {
 		g.verMode = 1 + g.r.Intn(6)
 	}
